@@ -125,8 +125,17 @@ FaultPostEv ==
   /\ disk' = IF e.diskAfter = withA THEN withA ELSE disk
   /\ UNCHANGED <<cursor, st, got, from, lockedBy, final, nclients>>
 
+(* the agreement shown at login before and after the operator replaced it (file + Reload): the complete current text *)
+AgreementEv ==
+  LET e == Log[l] IN
+  /\ e.op = "agreement"
+  /\ (~(e.shownBefore /\ e.beforeExact) => Report("VIOL", e, [sig |-> "agreement-not-the-current-text", phase |-> "before-reload"]))
+  /\ (e.reloaded /\ ~(e.shownAfter /\ e.afterExact) => Report("VIOL", e, [sig |-> "agreement-not-the-current-text", phase |-> "after-reload"]))
+  /\ (~e.reloaded => Report("DRIFT", e, "the agreement could not be reloaded"))
+  /\ UNCHANGED <<bvars, final, nclients>>
+
 Next == /\ l <= Len(Log)
-        /\ (World \/ Call \/ ReplyEv \/ AckedEv \/ EndEv \/ PostEv \/ ReadEv \/ ConcStart \/ CRead \/ CPost \/ FaultPostEv)
+        /\ (AgreementEv \/ World \/ Call \/ ReplyEv \/ AckedEv \/ EndEv \/ PostEv \/ ReadEv \/ ConcStart \/ CRead \/ CPost \/ FaultPostEv)
         /\ l' = l + 1
         /\ TLCSet(1, l')
 
